@@ -60,13 +60,14 @@ func ruleR36(c *Ctx) {
 		}
 		switch x := e.(type) {
 		case *ast.Ident:
+			name := x.Name
+			if keyName.MatchString(name) {
+				out["KEY"] = true // however the key bytes were prepared (R08 compares that)
+				return
+			}
 			if d := m.resolveLocal(u, x); d != nil {
 				atoms(u, d, out, depth+1)
 				return
-			}
-			name := x.Name
-			if keyName.MatchString(name) {
-				name = "KEY"
 			}
 			out[name] = true
 		case *ast.SelectorExpr:
